@@ -17,12 +17,12 @@ META = {
              "non-trivial = (by the model) the last-ending operation of some (sub-)circuit is not a relation leaf or the earliest-starting one is not a head"),
     "assumptions": ["reference model qv/model.py; span computed from the library's own reported operation times at the same step as well"],
     "floors": {
-        "quick": {"durations_compared": 40000, "follower_checks": 5000, "empty_circuits": 1000, "label_non-leaf-last-end": 1000, "label_early-start": 3000, "label_nested-block-early-start": 500},
+        "quick": {"durations_compared": 40000, "growth_rereads": 3000, "registry_reassignments": 10000, "follower_checks": 5000, "empty_circuits": 1000, "label_non-leaf-last-end": 1000, "label_early-start": 3000, "label_nested-block-early-start": 500},
         "thorough": {"durations_compared": 500000, "follower_checks": 50000, "empty_circuits": 10000},
     },
 }
 
-CLASSES = ["span-hostile", "span-hostile", "span", "explicit", "nested_explicit", "nested", "zero", "empty"]
+CLASSES = ["span-hostile", "span-hostile", "span", "explicit", "nested_explicit", "nested", "zero", "empty", "long", "deepnest"]
 
 
 def plan(tier: str, seed: int) -> List[Dict[str, Any]]:
@@ -106,6 +106,45 @@ def check_program(prog: Dict[str, Any], acc: Acc, flags=None):
             if raw[k][0] < last - TOL:
                 acc.finding("follower-overlaps-block", "an operation FOLLOWED_BY a sub-circuit starts before all of the sub-circuit's operations have ended",
                             case, {"op": type(op).__name__, "start": raw[k][0], "content_end": last})
+        # ---- registry durations (re-)assigned after the reads (some keys for the first time): duration and the times of the
+        #      operations listed before, read again without a listing in between
+        if prog.get("settings", {}).get("reg") is not None:
+            for k2, v2 in (("ra", 3), ("rb", 0.5), ("rc", 7.25)):
+                ctx.duration_registry.set_registry_at(k2, v2)
+                S.reg[k2] = v2
+            acc.count("registry_reassignments")
+            rep_r = snap.raw_value(lambda: float(top.duration))
+            shd_r = snap.shadow_value(lambda: float(top.duration))
+            r_raw, r_sh = snap.raw_times(ops), snap.shadow_times(ops)
+            if abs(rep_r - shd_r) > TOL or any(abs(a[0] - b[0]) > TOL or abs(a[1] - b[1]) > TOL for a, b in zip(r_raw, r_sh)):
+                acc.finding("stale-memo/after-registry-change", "duration / times reported after registry durations were (re-)assigned differ from the memo-free evaluation",
+                            case, {"duration_reported": rep_r, "duration_memo_free": shd_r})
+            elif abs(rep_r - M.span(built.top.mnodes, S)) > TOL and "plain" == label:
+                acc.finding("duration/after-registry-change", "duration after the registry durations were re-assigned is not the model span", case,
+                            {"duration": rep_r, "model": M.span(built.top.mnodes, S)})
+        # ---- growth after the reads: a long operation is added through a nested sub-circuit handle; durations and the times of
+        #      the operations listed before are read again WITHOUT a listing in between, then once more with a fresh listing
+        for h, child in zip(built.top.handles, built.top.children):
+            if child is None:
+                continue
+            op = bp.make_op({"k": "Wait", "q": [0], "dur": 7.25}, ctx, [built.top])
+            h.add(op)
+            acc.count("growth_rereads")
+            rep2 = snap.raw_value(lambda: float(top.duration))
+            shd2 = snap.shadow_value(lambda: float(top.duration))
+            old_raw, old_sh = snap.raw_times(ops), snap.shadow_times(ops)
+            if abs(rep2 - shd2) > TOL or any(abs(a[0] - b[0]) > TOL or abs(a[1] - b[1]) > TOL for a, b in zip(old_raw, old_sh)):
+                acc.finding("stale-memo/after-growth", "duration / times reported after a sub-circuit grew differ from the memo-free evaluation", case,
+                            {"duration_reported": rep2, "duration_memo_free": shd2})
+                break
+            ops3 = top.operations
+            raw3 = snap.raw_times(ops3)
+            span3 = (max(e for _, e in raw3) - min(s0 for s0, _ in raw3)) if raw3 else 0.0
+            rep3 = snap.raw_value(lambda: float(top.duration))
+            if abs(rep3 - span3) > TOL:
+                acc.finding("duration/span-after-growth", "duration of the circuit after a sub-circuit grew is not the span of the reported operation times", case,
+                            {"duration": rep3, "span": span3})
+            break
     memo_shadow.drain()
 
 
